@@ -18,6 +18,7 @@ func stackTrace() string { return string(debug.Stack()) }
 const smtDefs = `(define-fun godiv ((a Int) (b Int)) Int (ite (>= a 0) (ite (> b 0) (div a b) (- (div a (- b)))) (ite (> b 0) (- (div (- a) b)) (div (- a) (- b)))))
 (define-fun gomod ((a Int) (b Int)) Int (- a (* b (godiv a b))))
 (declare-fun fresh$ (Int) Bool)
+(declare-fun allocid$ (Int) Int)
 (declare-fun atbv (Str Int) (_ BitVec 8))
 (declare-fun pow2big (Int) Int)
 `
@@ -41,18 +42,48 @@ func queryText(vc *VC, o *Obligation) string {
 	b.WriteString("(set-option :produce-models true)\n")
 	b.WriteString("(set-logic ALL)\n")
 	b.WriteString(prelude)
+	for _, srt := range vc.sorts {
+		fmt.Fprintf(&b, "(declare-sort %s 0)\n", srt)
+	}
 	b.WriteString(smtDefs)
 	b.WriteString(pow2Def())
-	for _, d := range vc.decls {
-		b.WriteString(d)
-		b.WriteByte('\n')
+	keepDecl, keepLine := vc.sliceFor(o, "")
+	ix := vc.sidx
+	// drop unused constant/function declarations as well
+	used := map[string]bool{}
+	for _, t := range tokens(o.Guard + " " + o.Goal) {
+		used[t] = true
 	}
-	n := o.Prefix
-	if n > len(vc.lines) {
-		n = len(vc.lines)
+	for i, k := range keepDecl {
+		if k && ix.decls[i].kind != "declare" {
+			for _, s := range ix.decls[i].syms {
+				used[s] = true
+			}
+		}
+	}
+	for i, k := range keepLine {
+		if k {
+			for _, s := range ix.lines[i].syms {
+				used[s] = true
+			}
+		}
 	}
 	var body strings.Builder
-	for _, l := range vc.lines[:n] {
+	for i, d := range vc.decls {
+		if !keepDecl[i] {
+			continue
+		}
+		li := ix.decls[i]
+		if li.kind == "declare" && li.name != "" && !used[li.name] && !strings.HasPrefix(d, "(declare-datatypes") {
+			continue
+		}
+		body.WriteString(d)
+		body.WriteByte('\n')
+	}
+	for i, l := range vc.lines[:len(keepLine)] {
+		if !keepLine[i] {
+			continue
+		}
 		body.WriteString(l)
 		body.WriteByte('\n')
 	}
@@ -257,6 +288,13 @@ func getModel(file, solver string, timeoutS int) string {
 
 // dischargeAll runs all obligations with bounded parallelism.
 func dischargeAll(dir string, items []oblItem, timeoutS int, waitAll bool) {
+	seenVC := map[*VC]bool{}
+	for _, it := range items {
+		if it.vc != nil && !seenVC[it.vc] {
+			seenVC[it.vc] = true
+			it.vc.index()
+		}
+	}
 	var wg sync.WaitGroup
 	sem := make(chan struct{}, 8)
 	for i := range items {
